@@ -519,6 +519,69 @@ func checkNoErrorBeforeScanning(c *Ctx, ri *readerInfo) {
 		}
 		return false
 	}
+	// does the value hold (or wrap) what a read of the source produced? A file name is a string too, but not the text.
+	fromRead := func(f *ssa.Function, v ssa.Value) bool {
+		found := false
+		seen := map[ssa.Value]bool{}
+		var walk func(v ssa.Value, depth int)
+		walk = func(v ssa.Value, depth int) {
+			if v == nil || seen[v] || depth > 8 || found {
+				return
+			}
+			seen[v] = true
+			switch x := v.(type) {
+			case *ssa.Extract:
+				walk(x.Tuple, depth+1)
+			case *ssa.Call:
+				if x.Call.IsInvoke() {
+					if n := x.Call.Method.Name(); n == "Read" || n == "Bytes" || n == "String" {
+						found = true
+					}
+					return
+				}
+				if callee := x.Call.StaticCallee(); callee != nil {
+					pp := fnPkgPath(callee)
+					if pp == "io" || pp == "bufio" || pp == "os" || pp == "io/ioutil" || pp == "bytes" {
+						found = true
+						return
+					}
+					// a reader value built from the text
+					for _, a := range x.Call.Args {
+						walk(a, depth+1)
+					}
+				}
+			case *ssa.Phi:
+				for _, e := range x.Edges {
+					walk(e, depth+1)
+				}
+			case *ssa.Convert:
+				walk(x.X, depth+1)
+			case *ssa.ChangeType:
+				walk(x.X, depth+1)
+			case *ssa.Slice:
+				walk(x.X, depth+1)
+			case *ssa.MakeInterface:
+				walk(x.X, depth+1)
+			case *ssa.UnOp:
+				walk(x.X, depth+1)
+			case *ssa.Alloc:
+				// a struct literal: what is stored into its fields
+				if x.Referrers() != nil {
+					for _, r := range *x.Referrers() {
+						if fa, ok := r.(*ssa.FieldAddr); ok && fa.Referrers() != nil {
+							for _, rr := range *fa.Referrers() {
+								if st, ok := rr.(*ssa.Store); ok {
+									walk(st.Val, depth+1)
+								}
+							}
+						}
+					}
+				}
+			}
+		}
+		walk(v, 0)
+		return found
+	}
 	var origin func(f *ssa.Function, v ssa.Value, depth int) (int, string) // 1 read error, 0 derived from the text, -1 unknown
 	origin = func(f *ssa.Function, v ssa.Value, depth int) (int, string) {
 		if depth > 3 {
@@ -558,7 +621,7 @@ func checkNoErrorBeforeScanning(c *Ctx, ri *readerInfo) {
 				return -1, "a call outside the module"
 			}
 			for _, a := range x.Call.Args {
-				if carriesText(a.Type()) {
+				if carriesText(a.Type()) && fromRead(f, a) {
 					return 0, shortFn(callee) + " is given the text and returns an error of its own"
 				}
 			}
